@@ -4,6 +4,7 @@ Every feature the generator can use has a name; `avoid` masks features (used to 
 workload inside the sub-space where open known findings do not trigger; each mask is tied to a finding and
 the masked feature is still exercised by that finding's deterministic probe).
 """
+import copy
 import random
 from .model import (Schema, TypeDef, Entity, Attr, Derived, Inverse, T, INT, REAL, STR, NAMED, ENT, AGG, SIMPLE)
 
@@ -20,6 +21,7 @@ FEATURES = [
     'selmember_renamed_enum',   # entity that is a select member (or its ancestor) has an attribute of a renamed enumeration type
     'enum_prefix_items',        # enumeration items that are proper prefixes of other items of the same type
     'select_chain_members',     # SELECT listing a defined type together with the defined type it renames
+    'merged_attr_decls',        # several attributes declared in one clause (a, b : OPTIONAL T;)
 ]
 
 ITEMS = ['red', 'green', 'blue', 'cyan', 'amber', 'violet', 'white', 'grey']
@@ -132,9 +134,16 @@ class Gen(object):
         # ---- attributes
         for e in ents:
             k = rng.randint(1, 5)
+            merge = self.ok('merged_attr_decls') and rng.random() < .4
+            e.merge_decls = merge
             for j in range(k):
-                t = self.attr_type(s, names, depth=0)
-                opt = rng.random() < .3
+                if merge and j and rng.random() < .6:
+                    # several attributes declared in one clause: `a, b : OPTIONAL T;`
+                    t, opt = copy.deepcopy(e.attrs[-1].type), e.attrs[-1].optional
+                    s.tags.add('merged_attr_decls')
+                else:
+                    t = self.attr_type(s, names, depth=0)
+                    opt = rng.random() < .3
                 e.attrs.append(Attr('%s_a%d' % (e.name, j), t, opt))
         # ---- open finding C02 'select over an entity with a renamed-enumeration attribute does not compile':
         #      the select class header uses the renamed enumeration's typedef before it is declared
